@@ -478,6 +478,7 @@ func (ps *PathSum) callStatic(s *psState, f *psFrame, x ssa.Instruction, callee 
 		res = ps.sym("statnow")
 	} else {
 		ps.emit(s, f, pos, "Call", append([]string{funcName(o)}, args...)...)
+		s.trace[len(s.trace)-1].Res = res
 	}
 	if o.Signature.Results().Len() > 1 && xv != nil {
 		for i := 0; i < o.Signature.Results().Len(); i++ {
